@@ -128,6 +128,10 @@ def wl_history(ctx, rng, case, force_width=None):
             op = rng.choice(["add_alt", "remove_alt"]) if true[k] >= n else "add_alt"
             long_hashes = s.hashes(k, s.depth + rng.randint(1, 3))
             kind = rng.choice(["too-many-hashes", "too-many-hashes", "fractional-amount", "amount-below-int32"])
+            if kind == "fractional-amount" and total >= 2**30:
+                # next to counters close to the 32-bit limit a fractional amount is clamped (cell by cell) before the first unsaturated cell
+                # refuses it: not a clean refusal, and outside the statement (amounts are integers) - not used there
+                kind = "too-many-hashes"
             case.op(op + "-" + kind, k, n)
             try:
                 if kind == "too-many-hashes":
